@@ -15,7 +15,7 @@ META = dict(
     "SumObservable / ProdObservable consult their children only through apply and isinstance, the step for arbitrary children gives "
     "every depth; trees up to depth 3 are additionally compared with an interpreter",
     functions=["qucumber/observables/observable.py: ObservableBase.__neg__/__add__/__sub__/__mul__/__radd__/__rsub__/__rmul__, SumObservable, ProdObservable, statistics_from_samples"],
-    bounds=dict(quick="7 overloads x {observable, int, float, numpy.float64, bool, 0, negative} operands; batch of 3 samples; all trees of depth <= 2 and 60 trees of depth 3 over 2 leaves and 4 scalars",
+    bounds=dict(quick="7 overloads x {observable, int, float, numpy.float64, bool, 0, negative} operands; batch of 3 samples; all trees of depth <= 2 and 60 trees of depth 3 over 2 leaves and 4 scalars; shared sub-expressions (DAGs), re-evaluation after the children changed, look-alike leaves, negative-scalar products under negation, scalar x (sum with scalar); composites of SigmaZ / NeighbourInteraction on a concrete batch",
                 thorough="batch of 5 samples, 960 random trees of depth 2..6"),
     outside=["scalar operands are concrete values of each accepted Python kind (a Python float cannot be symbolic); the observable operands are fully symbolic", "leaf observables other than through their apply values (C08/C09)"],
     stubs=["leaf observables -> stubs returning symbolic per-sample values", "torch -> vf.symtorch"],
